@@ -153,9 +153,13 @@ async def gateway_case(ctx, version: str, line: str) -> None:
 
 def run_case(ctx, case: dict) -> None:
     if case["kind"] == "independent":
-        check_independent_decodes(ctx, {case["version"]: schema_for(case["version"])}, case["version"], case["line"])
+        for via_context in (False, True):  # both ways of configuring the decoder (the run used one per shard)
+            check_independent_decodes(ctx, {case["version"]: schema_for(case["version"], via_context=via_context)},
+                                      case["version"], case["line"])
     elif case["kind"] == "schema":
-        check_schema(ctx, {case["version"]: schema_for(case["version"])}, case["version"], case["line"])
+        for via_context in (False, True):
+            check_schema(ctx, {case["version"]: schema_for(case["version"], via_context=via_context)}, case["version"],
+                         case["line"])
     else:
         arun(gateway_case(ctx, case["version"], case["line"]))
 
@@ -212,7 +216,9 @@ def mutate(rng, line: str) -> str:
 
 def run(ctx) -> None:
     rng = ctx.rng
-    schemas = {v: schema_for(v) for v in VERSIONS}
+    # odd shards configure their decoders through the schema context instead of set_protocol()
+    schemas = {v: schema_for(v, via_context=bool(ctx.shard_index % 2)) for v in VERSIONS}
+    ctx.obs("decoder-configured-via:" + ("context" if ctx.shard_index % 2 else "set_protocol"))
     with Reach(ANCHORS) as reach:
         count = 0
         lines = list(dict.fromkeys(enumerate_lines(ctx.pick(2, 3))))
